@@ -37,6 +37,7 @@ type Cfg struct {
 	TrustedCraf     []TxSpec // vertices sealed by the trusted sealer T
 	Truncate        bool
 	TruncCancel     []int // C07: additionally offer truncations cancelled at the k-th context poll (once per node)
+	ProposeCancel   []int // additionally offer each proposal with a context that reports cancellation from its k-th poll on (once per transaction)
 	Tick            bool
 	Dup             bool // allow one duplicate delivery per (node, vertex)
 	Sync            bool // C14: evaluate sync to a spare node in every state (needs spare node name in Spare)
@@ -68,6 +69,7 @@ type Model struct {
 	// retries were used up; the admission guarantee of C13 is only demanded inside that budget
 	overBudget     bool
 	cancelledTrunc map[int]bool // a cancelled (partial) truncation happened on this node
+	cancelTried    map[string]bool // a proposal of this transaction with a cancelled context was made
 	synced         string       // C14: "<variant>=<result>" once a sync event ran (terminal)
 	syncSrc        int
 }
@@ -107,6 +109,7 @@ func (m *Model) Init() {
 	m.truncated = map[int]int{}
 	m.overBudget = false
 	m.cancelledTrunc = map[int]bool{}
+	m.cancelTried = map[string]bool{}
 	m.synced = ""
 	m.pre = nil
 	for _, lists := range [][]TxSpec{m.Cfg.Menu, m.Cfg.Crafted, m.Cfg.TrustedCraf, m.Cfg.Hidden} {
@@ -176,6 +179,11 @@ func (m *Model) Enabled() []string {
 				continue
 			}
 			out = append(out, ev("P", i, s.Label))
+			if !m.cancelTried[s.Label] {
+				for _, k := range m.Cfg.ProposeCancel {
+					out = append(out, ev("PC", i, s.Label, k))
+				}
+			}
 		}
 	}
 	for k, v := range m.produced {
@@ -257,6 +265,23 @@ func (m *Model) Apply(e string) string {
 		m.proposed[p[2]][i] = true
 		v, err := m.W.Propose(ctx, i, t)
 		if err == nil {
+			m.produced = append(m.produced, v)
+			vv := v
+			m.lastNew = &vv
+		}
+		return world.ErrClass(err)
+	case "PC":
+		// a proposal whose caller goes away: the context reports cancellation from its k-th poll on
+		i, _ := strconv.Atoi(p[1])
+		k, _ := strconv.Atoi(p[3])
+		t := m.txs[p[2]]
+		m.cancelTried[p[2]] = true
+		v, err := m.W.Propose(world.NewCountCtx(k), i, t)
+		if err == nil {
+			if m.proposed[p[2]] == nil {
+				m.proposed[p[2]] = map[int]bool{}
+			}
+			m.proposed[p[2]][i] = true
 			m.produced = append(m.produced, v)
 			vv := v
 			m.lastNew = &vv
@@ -578,7 +603,7 @@ func (m *Model) fullKey(vs []view) string {
 		tr = append(tr, fmt.Sprintf("%d:%d", i, n))
 	}
 	sort.Strings(tr)
-	return strings.Join(parts, " ") + " PROD[" + strings.Join(prod, " ") + "] PROP[" + strings.Join(prop, " ") + "] CR[" + strings.Join(cr, " ") + "] TR[" + strings.Join(tr, " ") + "]" + fmt.Sprintf(" OB=%v SYNC=%s CT=%v", m.overBudget, m.synced, len(m.cancelledTrunc))
+	return strings.Join(parts, " ") + " PROD[" + strings.Join(prod, " ") + "] PROP[" + strings.Join(prop, " ") + "] CR[" + strings.Join(cr, " ") + "] TR[" + strings.Join(tr, " ") + "]" + fmt.Sprintf(" OB=%v SYNC=%s CT=%v PC=%v", m.overBudget, m.synced, len(m.cancelledTrunc), sortedKeys(m.cancelTried))
 }
 
 // Key returns the canonical key (hashed) of the whole world.
@@ -613,4 +638,13 @@ func (m *Model) LongKeyOf(path []string, choices []int) string {
 		k = m.LongKey()
 	})
 	return k
+}
+
+func sortedKeys(m map[string]bool) []string {
+	var out []string
+	for k := range m {
+		out = append(out, k)
+	}
+	sort.Strings(out)
+	return out
 }
